@@ -1273,6 +1273,54 @@ theorem classify_ok_no_connection_header (fs : List Field) (h : classify fs = Re
   simpa using this
 
 
+/-! ## malformed requests as RFC 9113 8.1.1 defines them vs. what the server rejects -/
+
+/-- malformed as far as modelled: invalid on the wire, invalid pseudo-header set, or a malformed
+content-length -/
+def Malformed (fs : List Field) (endStream : Bool) : Bool :=
+  wireInvalid fs || pseudoInvalid fs || clBad fs endStream
+
+/-- Clause 5 for the whole of `Malformed`: every malformed request is classified for rejection with a
+stream error (and therefore, by `monitor_sound`, never reaches the handler). -/
+def MalformedRejectedStatement : Prop :=
+  ∀ fs es, Malformed fs es = true → classify fs = ReqClass.mw ∨ classify fs = ReqClass.mp
+
+private def fGetCL : List Field :=
+  [⟨58 :: sMethod, [71, 69, 84]⟩, ⟨58 :: sScheme, sHttps⟩, ⟨58 :: sPath, [47]⟩, ⟨[120, 45, 115, 105, 100], [49]⟩,
+   ⟨sContentLength, [97, 98, 99]⟩]    -- content-length: abc
+
+/-- FALSE of the unchanged code: `content-length: abc` is malformed and classified `ok` — the request
+reaches the handler (reproduced on the real server: oracle signature
+`bad-content-length-reaches-handler`). -/
+theorem malformed_full_false : ¬ MalformedRejectedStatement := by
+  intro h
+  have := h fGetCL false (by decide)
+  revert this
+  decide
+
+/-- the excluded region: malformed ONLY through its content-length -/
+def clOnly (fs : List Field) (endStream : Bool) : Bool :=
+  !wireInvalid fs && !pseudoInvalid fs && clBad fs endStream
+
+/-- Outside that region the clause holds. -/
+theorem malformed_holds_partial (fs : List Field) (es : Bool) (hm : Malformed fs es = true)
+    (hx : clOnly fs es = false) : classify fs = ReqClass.mw ∨ classify fs = ReqClass.mp := by
+  unfold Malformed at hm
+  unfold clOnly at hx
+  unfold classify
+  cases hw : wireInvalid fs
+  · cases hp : pseudoInvalid fs
+    · simp [hw, hp] at hm hx
+      simp [hm] at hx
+    · simp [hp]
+  · simp
+
+/-- non-vacuity: a well-formed content-length is not in the region; the three reported shapes are -/
+example : clBad (fGetCL.dropLast ++ [⟨sContentLength, [48]⟩]) true = false := by decide
+example : clBad (fGetCL.dropLast ++ [⟨sContentLength, [53]⟩]) true = true := by decide            -- 5 with END_STREAM
+example : clBad (fGetCL.dropLast ++ [⟨sContentLength, [51]⟩, ⟨sContentLength, [52]⟩]) false = true := by decide  -- 3, 4
+example : clOnly fGetCL false = true := by decide
+
 /-! ## T-tie: constants, comparison operators and tables regenerated from server.go -/
 
 theorem gen_limits_eq :
